@@ -273,6 +273,10 @@ impl TypeVisitor for V05<'_> {
                 let joint: Vec<T::Field> = rand_vec(rng, jl, RandStyle::Uniform);
                 let pr: Vec<T::Field> = rand_vec(rng, prl, RandStyle::Uniform);
                 let qr: Vec<T::Field> = rand_vec(rng, ql, RandStyle::Uniform);
+                // Wrong lengths of many shapes: off by one or two, emptied, halved, and whole multiples of the
+                // declared length (the value repeated, or followed by zeros / ones), since a length check written
+                // as a divisibility or lower-bound test is only exposed by those.
+                const HOWS: usize = 12;
                 let resize = |v: &[T::Field], how: usize| -> Option<Vec<T::Field>> {
                     let mut w = v.to_vec();
                     match how {
@@ -285,14 +289,50 @@ impl TypeVisitor for V05<'_> {
                             if w.is_empty() { return None; }
                             w.clear();
                         }
-                        _ => {
+                        3 => {
                             w.extend_from_slice(v);
                             w.push(T::Field::zero());
+                        }
+                        4 => {
+                            if w.is_empty() { return None; }
+                            w.extend_from_slice(v);
+                        }
+                        5 => {
+                            if w.is_empty() { return None; }
+                            w.extend(std::iter::repeat(T::Field::zero()).take(v.len()));
+                        }
+                        6 => {
+                            if w.is_empty() { return None; }
+                            w.extend_from_slice(v);
+                            w.extend_from_slice(v);
+                        }
+                        7 => {
+                            if w.len() < 2 { return None; }
+                            w.truncate(v.len() / 2);
+                        }
+                        8 => {
+                            w.push(T::Field::zero());
+                            w.push(T::Field::zero());
+                        }
+                        9 => {
+                            if w.len() < 3 { return None; }
+                            w.pop();
+                            w.pop();
+                        }
+                        10 => {
+                            if w.is_empty() { return None; }
+                            w.extend(std::iter::repeat(T::Field::one()).take(3 * v.len()));
+                        }
+                        _ => {
+                            if w.is_empty() { return None; }
+                            let mut z = vec![T::Field::zero(); v.len()];
+                            z.extend_from_slice(v);
+                            w = z;
                         }
                     }
                     Some(w)
                 };
-                for how in 0..4 {
+                for how in 0..HOWS {
                     let cases: [(&str, Option<Vec<T::Field>>); 5] = [
                         ("input", resize(&inp, how)),
                         ("prove_rand", resize(&pr, how)),
